@@ -494,6 +494,12 @@ def pmap(fn, items, procs=NPROC, chunksize=4, timeout=1800):
         return []
     _assert_no_helper_in_parent()
     ctx = mp.get_context('fork')
+    try:    # be a good neighbour when the machine is oversubscribed (many checks running at once)
+        load = os.getloadavg()[0]
+        if load > 24:
+            procs = max(3, min(procs, int(procs * 16 / load)))
+    except OSError:
+        pass
     with ctx.Pool(min(procs, len(items)), initializer=_worker_init) as pool:
         r = pool.map_async(fn, items, chunksize=chunksize)
         return r.get(timeout)
@@ -509,6 +515,9 @@ def exc_sig(e):
         if '/jedi/' in fn and 'third_party' not in fn:
             site = (os.path.relpath(fn, REPO) if fn.startswith(REPO) else fn, fr.name)
             frames.append(fr.name)
+    if tb and '/parso/' in tb[-1].filename:
+        # raised inside the parser library (a dependency): name that frame, the jedi caller varies
+        site = ('parso', '%s:%s' % (tb[-1].filename.split('/parso/')[-1], tb[-1].name))
     if isinstance(e, RecursionError):
         # the innermost frame of a stack overflow is arbitrary; name the cycle instead
         import collections
